@@ -370,6 +370,23 @@ func (e *composerEnv) patchJSON(p *CPatch) map[string]interface{} {
 		return map[string]interface{}{"action": p.A, "patches": ops}
 	}
 
+	if p.A == "broken" && len(p.IDs) == 1 {
+		switch p.IDs[0] {
+		case 1:
+			return map[string]interface{}{"publicKeys": []interface{}{e.keyJSON(CEnt{1, 1})}}
+		case 2:
+			return map[string]interface{}{"action": "rename-public-keys", "publicKeys": []interface{}{e.keyJSON(CEnt{1, 1})}}
+		case 3:
+			return map[string]interface{}{"action": "replace"}
+		case 4:
+			return map[string]interface{}{"action": "add-public-keys", "services": []interface{}{e.svcJSON(CEnt{1, 1})}}
+		case 5:
+			return map[string]interface{}{"action": "ietf-json-patch"}
+		case 6:
+			return map[string]interface{}{"action": "remove-services", "uris": []interface{}{entID("s", 1)}}
+		}
+	}
+
 	panic("harness: unknown patch action " + p.A)
 }
 
